@@ -321,8 +321,13 @@ def run_standard(ctx: Ctx, mod) -> int:
             ctx.broken.append("correspondence lemma shard_ok in " + ", ".join(broken_shards))
     klass = getattr(mod, "klass", lambda c: None)
     reported = set()
+    seen_kinds = set()
     for i, r in oracle_fail:
-        ctx.violation(r, {"case": cases[i], "oracle": r}, True, klass(cases[i]))
+        kind = (klass(cases[i]), re.sub(r"[0-9.e+-]+", "#", str(r))[:80])
+        if kind in seen_kinds or len(seen_kinds) >= 4:
+            continue
+        seen_kinds.add(kind)
+        ctx.violation(str(r), {"case": cases[i], "oracle": r, "same_kind_failures": sum(1 for _ in oracle_fail)}, True, klass(cases[i]))
         reported.add(i)
     if (disagree or not thm_ok or forb) and not oracle_fail:
         # proof or correspondence broke but no sampled case fails the property itself: search wider
